@@ -89,13 +89,13 @@ fn heavy(kind: u64, rng: &mut Rng) -> (Comp, Vec<ContentSpec>, bool, &'static st
             false,
             "4200 contents in 4200 clusters (cluster index above 12 bits)",
         ),
-        // a cluster with exactly 4096 blobs (what 12 bits can address; the shipped creator closes
-        // a cluster at 4095): cluster limit knob = 4096 blobs
+        // clusters of exactly 4095 blobs, compressed (the most the creator puts into one cluster; the
+        // format would allow 4096, which only another writer can produce)
         8 => (
             Comp::Zstd(1),
-            (0..4100).map(|i| mk(vec![b'A' + (i % 26) as u8; 2 + i % 5], Hint::Yes, SrcKind::Cursor)).collect(),
+            (0..8200).map(|i| mk(vec![b'A' + (i % 26) as u8; 2 + i % 5], Hint::Yes, SrcKind::Cursor)).collect(),
             false,
-            "4100 contents, clusters of 4096 blobs (the most a blob index can address)",
+            "8200 compressed contents, two full clusters of 4095 blobs",
         ),
         // more than 65536 clusters in one pack (the format allows 2^20)
         9 => (
@@ -270,9 +270,7 @@ impl TCheck for C01 {
             if work == 7 || work == 9 {
                 knobs.push(("cluster_max_blobs", 1));
             }
-            if work == 8 {
-                knobs.push(("cluster_max_blobs", 4096));
-            }
+
             let w = Arc::new(Work {
                 comp,
                 contents,
@@ -284,7 +282,7 @@ impl TCheck for C01 {
             });
             let w2 = Arc::clone(&w);
             return Prepared {
-                desc: json!({"boundary_workload": what, "comp": comp.name(), "contents": w.contents.len(), "dedup": dedup, "limits": if work == 7 || work == 9 { "one blob per cluster" } else if work == 8 { "4096 blobs per cluster" } else { "shipped (4095 blobs / 4 MiB)" }}),
+                desc: json!({"boundary_workload": what, "comp": comp.name(), "contents": w.contents.len(), "dedup": dedup, "limits": if work == 7 || work == 9 { "one blob per cluster" } else { "shipped (4095 blobs / 4 MiB)" }}),
                 knobs,
                 body: Arc::new(move |slot: &Slot| {
                     let mut rep = BodyReport::default();
